@@ -67,6 +67,14 @@ func genSim(r *term.Rng, idx int) term.T {
 			ab := []term.T{}
 			return term.C("SInsertAbility", term.I(int64(r.Range(1, 9))), term.I(term.Pick(r, prios)), term.C("TId", term.I(int64(r.Range(1, n)))), term.L(ab...), term.Nat(r.Intn(nbody)))
 		}
+		if r.Chance(1, 14) {
+			// a heal with a flat value: of the living, of units at zero HP awaiting revival, of the dead
+			ts := []term.T{}
+			for j := r.Range(1, 3); j > 0; j-- {
+				ts = append(ts, tsel())
+			}
+			return term.C("SHeal", term.L(ts...), term.F(term.Pick(r, []float64{10, 100, 400, 2000, 0.1, 0})))
+		}
 		switch {
 		case k < 7:
 			ts := []term.T{}
